@@ -237,6 +237,9 @@ func Main() {
 	repeats := map[string]int{}
 	one := func(t *verifsim.Tape, seed uint64, keep bool) *Outcome {
 		before := raceLogSize(racePrefix)
+		// outside a Sim, too, no map iteration in goa or in generated code is left to the Go runtime: the order is a
+		// function of the run's seed (a violation that depends on it then replays)
+		verifsim.SetIdleMapMode(verifsim.MapSeeded, seed)
 		var o *Outcome
 		func() {
 			defer func() {
